@@ -13,7 +13,7 @@ import random
 
 LEVEL = "exploration"
 RULE = ("ilp on n <= 6 items (values <= 200), 1-4 bins, five objectives; option classes: copies (one number 0/1/2, a per-item list, or a per-item dict keyed by item index written in shuffled insertion order), constraints smallest==c / largest<=c / smallest>=c (one, or two in the same list) with c below, at and "
-        "above feasibility (infeasible ones must raise ValueError), weights (uniform and non-uniform from {1/4,1/2,1,2,3,5,7.5,10,20,25,50,100}), plain; non-trivial = constraint binding (constrained optimum differs from the "
+        "above feasibility (infeasible ones must raise ValueError), weights (uniform and non-uniform from {1/4,1/2,1,2,3,5,7.5,10,20,25,50,100} or arbitrary integers / dyadic fractions), plain; non-trivial = constraint binding (constrained optimum differs from the "
         "unconstrained one) or infeasible, or copies not all 1, or weights not all equal; distinct on the full call")
 ASSUMPTIONS = ["values <= 200 (the property's solver envelope); a mismatch that disappears with CBC preprocessing off is inconclusive(solver)",
                "equal weights: 'never change the result' is read as same optimal value, same copies, ascending sums (the partition may differ among equally optimal ones)",
@@ -235,9 +235,10 @@ def draw(rng):
         feas = [v for v in vectors if constraint_ok(case["constraint"], v)]
         case["binding"] = (not feas) or min(O.objval(name, v, kp) for v in feas) != unc
     if cls == "weights_uniform":
-        case["weights"] = [rng.choice(W_POOL)] * k
+        # a menu weight, or ANY positive weight that is exact in float64 (integers up to 1000, dyadic fractions): equal weights of whatever size must not change the result
+        case["weights"] = [rng.choice(W_POOL) if rng.random() < 0.5 else rng.choice([rng.randint(1, 1000), rng.randint(1, 64) / rng.choice([2, 4, 8, 16, 64])])] * k
     elif cls == "weights":
-        case["weights"] = [rng.choice(W_POOL) for _ in range(k)]
+        case["weights"] = [rng.choice(W_POOL) if rng.random() < 0.7 else rng.choice([rng.randint(1, 200), rng.randint(1, 64) / rng.choice([2, 4, 8])]) for _ in range(k)]
         if len(case["values"]) > 5:
             case["values"] = case["values"][:5]
     return case
